@@ -500,12 +500,34 @@ func init() {
 			nSeeds = len(W.Objs)
 			nLattice = c.Pick(2500, latticeSize())
 			nMut = c.Pick(4000, 150000)
+			c03Build(c) // C03's boundary campaign: objects dated exactly at / one second around every lint's window edges, Z, +hhmm and GeneralizedTime forms
 			return nil
 		},
 		Once:  c04Probes,
-		Cases: func(c *mon.Ctx) int { return nLattice + nSeeds + nMut + c04Directed(c) },
+		Cases: func(c *mon.Ctx) int { return nLattice + nSeeds + nMut + c04Directed(c) + len(c03Cases) },
 		RunCase: func(c *mon.Ctx, i int) {
 			rng := c.Rng(i, 0)
+			if nb := nLattice + nSeeds + nMut + c04Directed(c); i >= nb {
+				// "inside the window the rule's verdict stands" has to hold AT the edges too, however the date is written:
+				// the trace automaton decides the window on integer seconds, the framework on time.Time values
+				cs := c03Cases[i-nb]
+				o, base := c03Object(cs)
+				if o == nil {
+					return
+				}
+				var fp *scopeFacts
+				if o.Kind == corpus.Cert {
+					f := factsFromParsed(o.Cert)
+					fp = &f
+				}
+				c04Trace(c, o, fp, "", fmt.Sprintf("%s re-dated to %s of %s (offset form %d)", base.Name, cs.label, Inv[cs.lint].Name, cs.off))
+				c.R.Count("boundary_dated_traced", 1)
+				if cs.off != 0 {
+					c.R.Count("boundary_dated_traced_offset_form", 1)
+				}
+				c.CountDistinct(o.DER)
+				return
+			}
 			if i >= nLattice+nSeeds+nMut {
 				// directed families (small ones completely, a stride of the big ones): shapes whose rule bodies return
 				// long, unusual or hostile details - what the framework reports must be what the body returned
@@ -588,6 +610,11 @@ func init() {
 			}
 			if r.SetSize("lints_traced_to_execute") < len(Inv)*8/10 {
 				gates = append(gates, fmt.Sprintf("only %d of %d lints were traced down to their rule body", r.SetSize("lints_traced_to_execute"), len(Inv)))
+			}
+			ev.Coverage["boundary_dated_traced"] = r.Counters["boundary_dated_traced"]
+			ev.Coverage["boundary_dated_traced_offset_form"] = r.Counters["boundary_dated_traced_offset_form"]
+			if r.Counters["boundary_dated_traced_offset_form"] < 500 {
+				gates = append(gates, "too few objects dated at a window edge in +hhmm form were traced")
 			}
 			if r.Counters["deprecated_wrapper_comparisons"] < 1000 {
 				gates = append(gates, "deprecated-wrapper comparison did not run")
